@@ -32,7 +32,7 @@ pub const PROPS: &[PropSpec] = &[
         rule: "non-trivial: >=2 kinds of reducer-context callbacks ran for >=2 actions while another client thread was runnable" },
     PropSpec { id: "C08", families: &[("core", 10)], borrowed: &[], quick_runs: 240_000,
         rule: "non-trivial: a get_state() call overlapped a pipeline instance in time, or a read happened inside a callback" },
-    PropSpec { id: "C09", families: &[("sub", 19), ("long", 1)], borrowed: &[("C14", "sub"), ("C10", "sub"), ("C10", "long"), ("C14", "long")], quick_runs: 240_000,
+    PropSpec { id: "C09", families: &[("sub", 39), ("long", 1)], borrowed: &[("C14", "sub"), ("C10", "sub"), ("C10", "long"), ("C14", "long")], quick_runs: 240_000,
         rule: "non-trivial: an unsubscribe() call overlapped a pipeline instance or a dispatch, or a subscriber was still registered at shutdown" },
     PropSpec { id: "C10", families: &[("sub", 10)], borrowed: &[], quick_runs: 240_000,
         rule: "non-trivial: a channeled subscriber received >=1 notification and its queue was full at least once or it was unsubscribed/stopped with items queued" },
